@@ -406,9 +406,18 @@ func doC11(ctx context.Context, w *out.Writer, r *rand.Rand, c *sdump.Config, ro
 	}
 	size := ttSizes[r.Intn(len(ttSizes))]
 	tt := &sdump.RecTT{Inner: search.NewTranspositionTable(ctx, size)}
-	scen := r.Intn(3)
+	scen := r.Intn(5)
 	var depths []int
 	switch scen {
+	case 3: // a shallower search after a deeper one
+		for x := depth; x >= 1; x-- {
+			depths = append(depths, x)
+		}
+	case 4: // deep, shallow, deep again
+		depths = []int{depth, 1, depth - 1, depth}
+		if depth < 2 {
+			depths = []int{depth, depth}
+		}
 	case 0: // iterative deepening
 		for x := 1; x <= depth; x++ {
 			depths = append(depths, x)
@@ -429,6 +438,26 @@ func doC11(ctx context.Context, w *out.Writer, r *rand.Rand, c *sdump.Config, ro
 		w.Emit(out.M{"op": "search", "depth": x, "a": proj.ScoreOf(eval.NegInfScore), "b": proj.ScoreOf(eval.InfScore), "tt": "shared", "ttsize": size,
 			"res": sdump.ResultOf(nodes, score, pv, err), "rec0": rec0, "rec1": sdump.Rec(b), "writes": tt.Take(d.Paths),
 			"reads": tt.Reads, "hits": tt.Hits})
+	}
+	// successive positions of a game on the same table: play a move and search the new root
+	if c.Cfg == "static" && depth >= 2 && r.Intn(2) == 0 {
+		legal, _ := gen.LegalOf(root.b)
+		if len(legal) > 0 {
+			nb := root.b.Fork()
+			nb.PushMove(legal[r.Intn(len(legal))])
+			next := rootT{b: nb, desc: root.desc + " +1"}
+			d2, ok := dumpTree(ctx, w, c, next, depth-1, limit, true)
+			if ok {
+				for x := 1; x <= depth-1; x++ {
+					b := nb.Fork()
+					rec0 := sdump.Rec(b)
+					nodes, score, pv, err := c.Search.Search(ctx, &search.Context{TT: tt}, b, x)
+					w.Emit(out.M{"op": "search", "depth": x, "a": proj.ScoreOf(eval.NegInfScore), "b": proj.ScoreOf(eval.InfScore), "tt": "shared", "ttsize": size,
+						"res": sdump.ResultOf(nodes, score, pv, err), "rec0": rec0, "rec1": sdump.Rec(b), "writes": tt.Take(d2.Paths),
+						"reads": tt.Reads, "hits": tt.Hits})
+				}
+			}
+		}
 	}
 	return true
 }
